@@ -392,6 +392,10 @@ type OnceCase struct {
 	Script []Act   `json:"script"`         // bubble driver only
 	Procs  int     `json:"procs"`          // stress driver only
 	Trials int     `json:"trials"`         // stress driver only
+	// AnyKeys (bubble driver): when 1..3 the key type is an interface and the
+	// keys are distinct values that print alike (1, "1", int64(1); struct
+	// keys whose fields concatenate alike; small integers of different types).
+	AnyKeys int `json:"any_keys,omitempty"`
 }
 
 // SemaCase is a program for ChanSemaphore.
